@@ -2,12 +2,12 @@ package main
 
 import (
 	"bytes"
-	"strings"
 	"encoding/hex"
 	"fmt"
 	"io"
 	"math/big"
 	"reflect"
+	"strings"
 	"sync"
 
 	"verif/harness/gen"
@@ -260,7 +260,7 @@ func validPoints(c *mon.Ctx, r *grp, rng *gen.Rng) (pts []namedPt) {
 	add("G", G, true)
 	add("-G", C.Neg(G), true)
 	add("[2]G", C.Double(G), true)
-	for i := 0; i < c.Pick(4, 16); i++ {
+	for i := 0; i < c.Pick(4, 48); i++ {
 		k := rng.BigBelow(r.g.R)
 		add("[k]G", C.Mul(G, k), true)
 	}
@@ -609,7 +609,7 @@ func runPoints(c *mon.Ctx, r *grp, s *slib) {
 	}
 
 	// --- (i) random strings, (k) bit flips of a valid encoding ---
-	for i := 0; i < c.Pick(8, 64); i++ {
+	for i := 0; i < c.Pick(8, 200); i++ {
 		b := rng.Bytes(su)
 		judge(c, r, s, es, b, fmt.Sprintf("random-bytes/flags=%#02x", b[0]&mask))
 	}
@@ -621,7 +621,7 @@ func runPoints(c *mon.Ctx, r *grp, s *slib) {
 		if len(enc) == sc {
 			form = "compressed"
 		}
-		for i := 0; i < c.Pick(8, 64); i++ {
+		for i := 0; i < c.Pick(8, 256); i++ {
 			o := append([]byte(nil), enc...)
 			bit := rng.Intn(8 * len(o))
 			o[bit/8] ^= 1 << uint(bit%8)
